@@ -4,7 +4,7 @@ Called from check.py (`./check C15`).  Everything is rebuilt from /repo's workin
 import filecmp, hashlib, json, os, shutil, subprocess, sys, tempfile
 
 ROOT = os.path.dirname(os.path.abspath(__file__))
-REPO = "/repo"
+REPO = os.environ.get("VERIF_REPO", "/repo")
 SPECS = ["activitystreams.jsonld", "security-v1.jsonld", "toot.jsonld", "forgefed.jsonld"]
 
 
